@@ -829,8 +829,14 @@ def remap_by_types(
             elif isinstance(t_node.func, ast.Subscript):
                 if isinstance(t_node.func.value, ast.Attribute):
                     found_type = self.lookup_type(t_node.func.value.value)
-                    # Only an object of known type can have a parameterized property
-                    if found_type is not None and found_type is not Any:
+                    # Only an object of a declared class can have a parameterized property (not a
+                    # literal, a callable, ...)
+                    if (
+                        found_type is not None
+                        and found_type is not Any
+                        and inspect.isclass(found_type)
+                        and found_type.__module__ != "builtins"
+                    ):
                         t_node = self.process_parameterized_method_call(
                             t_node,
                             found_type,
